@@ -106,33 +106,11 @@ func rtParse(sql string) (*ast.AST, []models.Comment, error) {
 	return tree, comments, nil
 }
 
-// rtKeywordField: the fields the parser fills with the spelling of a keyword or operator word of the source
-// (C04 finding parse-keeps-keyword-spelling); the property compares them up to letter case.
-var rtKeywordField = map[string]bool{
-	"BinaryExpression.Operator":      true, // AND OR LIKE ILIKE ...
-	"AnyExpression.Operator":         true,
-	"AllExpression.Operator":         true,
-	"SetOperation.Operator":          true, // UNION EXCEPT INTERSECT
-	"JoinClause.Type":                true, // INNER LEFT ...
-	"WindowFrame.Type":               true, // ROWS RANGE GROUPS
-	"WindowFrameBound.Type":          true, // UNBOUNDED PRECEDING ...
-	"DropStatement.ObjectType":       true,
-	"DropStatement.CascadeType":      true,
-	"TruncateStatement.CascadeType":  true,
-	"ColumnConstraint.Type":          true,
-	"TableConstraint.Type":           true,
-	"ReferenceDefinition.OnDelete":   true,
-	"ReferenceDefinition.OnUpdate":   true,
-	"AlterTableAction.Type":          true,
-	"IndexColumn.Direction":          true,
-	"CreateViewStatement.WithOption": true,
-	"MergeWhenClause.Type":           true,
-	"MergeAction.ActionType":         true,
-	"ForClause.LockType":             true,
-	"FetchClause.FetchType":          true,
-	"PartitionBy.Type":               true,
-	"ExtractExpression.Field":        true,
-}
+// rtKeywordField: fields that are compared up to letter case. Empty since the parser stores the canonical spelling of
+// every keyword and operator word (repo a8df5c2 4f7af58 7e001b2 3b9ee21 654ca05; C04 finding parse-keeps-keyword-spelling,
+// fixed): a serialiser that writes `and` for "AND" must give back "AND". The one exception left is the value of a boolean
+// literal (C04 known finding parse-keeps-boolean-spelling), handled where the strings are compared.
+var rtKeywordField = map[string]bool{}
 
 type rtDelta struct {
 	Path, Type, Field, A, B string
